@@ -52,9 +52,11 @@ fn bp_hit(w: &World, bps: &[BpS]) -> bool {
 }
 
 /// Emulates one run-style call on `w` using only step_in.
-fn emulate(w: &mut World, op: &Op, bps: &[BpS], acc: &mut Acc) -> Result<Stop, String> {
+fn emulate(w: &mut World, op: &Op, bps: &[BpS], acc: &mut Acc, depth: &mut u64) -> Result<Stop, String> {
     let start_count = w.sim.instructions_run;
-    let start_depth = w.sim.frame_stack.len();
+    // call depth as the harness counts it (calls, traps, interrupt/exception entries minus
+    // RET/JMP R7/RTI, saturating) — deliberately not the library's own frame counter
+    let start_depth = *depth;
     if matches!(op, Op::StepOut) && start_depth == 0 {
         return Ok(Stop::Noop);
     }
@@ -80,23 +82,18 @@ fn emulate(w: &mut World, op: &Op, bps: &[BpS], acc: &mut Acc) -> Result<Stop, S
                 }
                 true
             }
-            Op::StepOver => std::mem::take(&mut first) || start_depth < w.sim.frame_stack.len(),
-            Op::StepOut => std::mem::take(&mut first) || start_depth <= w.sim.frame_stack.len(),
+            Op::StepOver => std::mem::take(&mut first) || start_depth < *depth,
+            Op::StepOut => std::mem::take(&mut first) || start_depth <= *depth,
             _ => unreachable!(),
         };
         if !go {
             break Stop::Tripwire;
         }
-        let (c0, d0, pc0) = (w.sim.instructions_run, w.sim.frame_stack.len(), w.sim.pc);
-        let r = guarded(|| w.sim.step_in())?;
-        for (a, s) in w.sim.observer.take_mem_accesses() {
-            *acc.entry(a).or_insert(0) |= acc_bits(s);
-        }
+        let (r, halted) = tracked_step(w, depth, acc)?;
         match r {
-            Err(e) => break Stop::Err(err_kind(&e)),
+            Err(k) => break Stop::Err(k),
             Ok(()) => {
-                // step_in hides a virtual HALT: nothing was counted, no frame was entered, pc stayed
-                if w.sim.instructions_run == c0 && w.sim.frame_stack.len() == d0 && w.sim.pc == pc0 {
+                if halted {
                     break Stop::Halt;
                 }
             }
@@ -107,6 +104,40 @@ fn emulate(w: &mut World, op: &Op, bps: &[BpS], acc: &mut Acc) -> Result<Stop, S
     };
     mcr.store(false, Ordering::Relaxed);
     Ok(stop)
+}
+
+/// One `step_in` on the stepped twin. Classifies what the step did from the instruction word
+/// at the old PC and the instruction counter, and maintains the independent call depth.
+fn tracked_step(w: &mut World, depth: &mut u64, acc: &mut Acc) -> Result<(Result<(), &'static str>, bool), String> {
+    let (c0, pc0, psr0) = (w.sim.instructions_run, w.sim.pc, w.sim.psr().get());
+    let word = w.sim.mem[pc0].get();
+    let r = guarded(|| w.sim.step_in())?;
+    for (a, s) in w.sim.observer.take_mem_accesses() {
+        *acc.entry(a).or_insert(0) |= acc_bits(s);
+    }
+    match r {
+        Err(e) => Ok((Err(err_kind(&e)), false)),
+        Ok(()) => {
+            if w.sim.instructions_run == c0 {
+                if w.sim.pc == pc0 && w.sim.psr().get() == psr0 && word == 0xF025 && !w.sim.flags.use_real_traps {
+                    // step_in hides a virtual HALT: nothing was counted, the PC rests on the TRAP x25
+                    // and the PSR is untouched (an interrupt entry whose handler starts at the old PC
+                    // would at least have raised the priority)
+                    return Ok((Ok(()), true));
+                }
+                // interrupt or (real traps) exception entry
+                *depth += 1;
+            } else {
+                match word >> 12 {
+                    4 | 15 => *depth += 1,
+                    12 if (word >> 6) & 7 == 7 => *depth = depth.saturating_sub(1),
+                    8 => *depth = depth.saturating_sub(1),
+                    _ => {}
+                }
+            }
+            Ok((Ok(()), false))
+        }
+    }
 }
 
 fn is_drive(op: &Op) -> bool {
@@ -168,6 +199,7 @@ impl C13 {
         let mut acc_b: Acc = Acc::new();
         let mut unbroken_ok = true;
         let mut program_halted = false;
+        let mut depth_b = 0u64;
         macro_rules! fail {
             ($i:expr, $c:expr, $d:expr) => {{
                 a.host.release_all();
@@ -186,7 +218,7 @@ impl C13 {
                     Ok(_) => unreachable!(),
                     Err(p) => fail!(i, format!("panic-in-{}", op_name(op)), p),
                 };
-                let sb = match emulate(&mut b, op, &bps, &mut acc_b) {
+                let sb = match emulate(&mut b, op, &bps, &mut acc_b, &mut depth_b) {
                     Ok(s) => s,
                     Err(p) => fail!(i, "panic-in-step_in", p),
                 };
@@ -278,7 +310,23 @@ impl C13 {
                     _ => unbroken_ok = false,
                 }
                 let ra = guarded(|| exec_op(&mut a, op));
-                let rb = guarded(|| exec_op(&mut b, op));
+                let rb = if let Op::Step(n) = op {
+                    let mut sink = Acc::new();
+                    let mut res = Ok(OpRes::Drive(Ok(())));
+                    for _ in 0..*n {
+                        match tracked_step(&mut b, &mut depth_b, &mut sink) {
+                            Ok((Ok(()), _)) => {}
+                            Ok((Err(_), _)) => break,
+                            Err(p) => {
+                                res = Err(p);
+                                break;
+                            }
+                        }
+                    }
+                    res
+                } else {
+                    guarded(|| exec_op(&mut b, op))
+                };
                 if let (Err(p), _) | (_, Err(p)) = (&ra, &rb) {
                     fail!(i, format!("panic-in-{}", op_name(op)), p.clone());
                 }
